@@ -3,6 +3,7 @@ from typing import Optional, Generator
 
 from dliswriter.logical_record.core.logical_record.segment_attributes import SegmentAttributes
 from dliswriter.utils.internal.internal_enums import RepresentationCode as RepC
+from dliswriter.utils.internal import verif_taps
 
 
 logger = logging.getLogger(__name__)
@@ -106,6 +107,9 @@ class LogicalRecordBytes:
         Yields:
             bytes   :   Bytes of a logical record segment, including an added header.
         """
+
+        if verif_taps.ENABLED:
+            verif_taps.lr_tap(self._is_eflr, self._lr_type_struct, self._bts, max_n_bytes)
 
         start_pos = 0  # start from the beginning of the logical record bytes
         remaining_size = self._size  # all bytes will be processed; self._size is assumed to always be >=12
